@@ -6,10 +6,37 @@ from vf.e1 import E1Runner
 from . import l2, l20, g20
 
 
+def probe_thresholds(run):
+    """unwinding assertion: schemas are explored to nesting depth <= 4; a depth/size threshold in the generator's source
+    beyond that is probed natively with a chain of by-name levels just below, at and above the threshold"""
+    from vf import bounds
+    ths = bounds.size_thresholds(["fastavro.utils"], 4)
+    if not ths:
+        run.obligation("bounds.no_threshold_beyond_the_bound", "discharged",
+                       "no comparison of a size/depth with an integer constant > 4 in fastavro.utils", paths=1)
+        return
+    for (mod, fn, line, lit) in ths:
+        ob = f"bounds.threshold.utils.{fn}.{lit}"
+        verdict, detail = "inconclusive", (f"threshold {lit} at {mod}:{line} ({fn}) lies beyond the explored sizes; probed natively at "
+                                            "the threshold without a failure")
+        if lit <= 300:
+            for n in (lit - 1, lit, lit + 1, lit + 3):
+                ok, d = l20.ob_chain(n)
+                run.validated += 1
+                if not ok:
+                    text = ("import sys, os\nsys.path[:0]=[os.environ.get('VF_ROOT','/verif'), os.environ.get('VF_REPO','/repo')]\n"
+                            f"from props.l20 import ob_chain\nok, d = ob_chain({n})\n"
+                            "print('REPRODUCED' if not ok else 'not reproduced', d)\nsys.exit(0 if ok else 1)\n")
+                    verdict, detail = run.violation(ob, f"generate:depth-threshold:{lit}", f"{d} (threshold {lit} at {mod}:{line})", text), d
+                    break
+        run.obligation(ob, verdict, detail, paths=1)
+
+
 def run(run, tier):
     g20.run_e1(run, tier)
     hs = l20.harnesses(tier, run.seed)
     ch.run_harnesses(run, "C20", hs, timeout=150 if tier == "quick" else 500)
+    probe_thresholds(run)
     g20.known_recursion(run)
     l2.describe(run, tier)
     run.bounds += ["structure (E2): schemas " + ", ".join(l20.SCHEMAS if tier == "thorough" else l20.QUICK) + "; count n in 0..2 (symbolic); every draw "
